@@ -1050,4 +1050,223 @@ theorem tri_contains_iff (a b c p : Pt K) (hdet : 0 < orient a b c) :
         rw [e1, e2]; ring
       linarith
 
+/-! ### the closed triangle and the set `Triangle` denotes (`mem (.tri …)` of Proofs/GeomSpec.lean) -/
+
+theorem orient_x_identity (a b c p : Pt K) :
+    orient a b p * (c.1 - p.1) + orient b c p * (a.1 - p.1) + orient c a p * (b.1 - p.1) = 0 := by
+  simp only [orient]; ring
+
+theorem between_mul_nonpos (a b x : K) (h1 : min a b ≤ x) (h2 : x ≤ max a b) : (a - x) * (b - x) ≤ 0 := by
+  rcases le_total a b with h | h
+  · rw [min_eq_left h] at h1; rw [max_eq_right h] at h2
+    exact mul_nonpos_of_nonpos_of_nonneg (sub_nonpos.mpr h1) (sub_nonneg.mpr h2)
+  · rw [min_eq_right h] at h1; rw [max_eq_left h] at h2
+    exact mul_nonpos_of_nonneg_of_nonpos (sub_nonneg.mpr h2) (sub_nonpos.mpr h1)
+
+/-- `s·u + t·v = 0` with `u`, `v` of opposite sign, `s + t > 0` and `s < 0` forces `u = v = 0` -/
+theorem neg_weight_collapse (s t u v : K) (huv : u * v ≤ 0) (hst : 0 < s + t) (h : s * u + t * v = 0) (hs : s < 0) :
+    u = 0 ∧ v = 0 := by
+  have ht : 0 < t := by linarith
+  have e1 : s * u ^ 2 = - t * (u * v) := by
+    have : s * u = - t * v := by linarith
+    calc s * u ^ 2 = (s * u) * u := by ring
+      _ = - t * (u * v) := by rw [this]; ring
+  have q1 : 0 ≤ - t * (u * v) := by
+    have := mul_nonneg ht.le (neg_nonneg.mpr huv); nlinarith
+  have z1 : u ^ 2 = 0 := by
+    by_contra hne
+    have : 0 < u ^ 2 := lt_of_le_of_ne (sq_nonneg _) (Ne.symm hne)
+    have := mul_neg_of_neg_of_pos hs this
+    linarith
+  have hu : u = 0 := by simpa using z1
+  rw [hu, mul_zero, zero_add] at h
+  exact ⟨hu, (mul_eq_zero.mp h).resolve_left ht.ne'⟩
+
+/-- a point of the edge `a b` of a counter-clockwise triangle is on the inner side of the other two edges -/
+theorem onSeg_tri_nonneg (a b c p : Pt K) (hdet : 0 < orient a b c) (h : onSeg a b p = true) :
+    0 ≤ orient b c p ∧ 0 ≤ orient c a p := by
+  obtain ⟨h0, x1, x2, y1, y2⟩ := (onSeg_iff a b p).mp h
+  have hS := orient_sum a b c p
+  have hY := orient_y_identity a b c p
+  have hX := orient_x_identity a b c p
+  rw [h0] at hS hY hX
+  have uy := between_mul_nonpos a.2 b.2 p.2 y1 y2
+  have ux := between_mul_nonpos a.1 b.1 p.1 x1 x2
+  have degenerate : a.2 - p.2 = 0 → b.2 - p.2 = 0 → a.1 - p.1 = 0 → b.1 - p.1 = 0 → False := by
+    intro ay by' ax bx
+    have : orient a b c = 0 := by
+      simp only [orient]
+      have e1 : b.1 - a.1 = 0 := by linarith
+      have e2 : b.2 - a.2 = 0 := by linarith
+      rw [e1, e2]; ring
+    linarith
+  constructor
+  · by_contra hc
+    obtain ⟨e1, e2⟩ := neg_weight_collapse (orient b c p) (orient c a p) _ _ uy (by linarith) (by linarith) (not_le.mp hc)
+    obtain ⟨e3, e4⟩ := neg_weight_collapse (orient b c p) (orient c a p) _ _ ux (by linarith) (by linarith) (not_le.mp hc)
+    exact degenerate e1 e2 e3 e4
+  · by_contra hc
+    obtain ⟨e1, e2⟩ := neg_weight_collapse (orient c a p) (orient b c p) (b.2 - p.2) (a.2 - p.2)
+      (by rw [mul_comm]; exact uy) (by linarith) (by linarith) (not_le.mp hc)
+    obtain ⟨e3, e4⟩ := neg_weight_collapse (orient c a p) (orient b c p) (b.1 - p.1) (a.1 - p.1)
+      (by rw [mul_comm]; exact ux) (by linarith) (by linarith) (not_le.mp hc)
+    exact degenerate e2 e1 e4 e3
+
+/-- a point on the inner side of two edges and collinear with the third lies on that edge -/
+theorem tri_zero_onSeg (a b c p : Pt K) (hdet : 0 < orient a b c) (h0 : orient a b p = 0)
+    (h1 : 0 ≤ orient b c p) (h2 : 0 ≤ orient c a p) : onSeg a b p = true := by
+  have hS := orient_sum a b c p
+  have hY := orient_y_identity a b c p
+  have hX := orient_x_identity a b c p
+  rw [h0] at hS hY hX
+  rw [onSeg_iff]
+  refine ⟨h0, ?_, ?_, ?_, ?_⟩
+  · by_contra hc
+    obtain ⟨c1, c2⟩ := lt_min_iff.mp (not_le.mp hc)
+    have := mul_nonneg h1 (sub_pos.mpr c1).le
+    have := mul_nonneg h2 (sub_pos.mpr c2).le
+    rcases (lt_or_eq_of_le h1) with h | h
+    · have := mul_pos h (sub_pos.mpr c1); linarith
+    · have : 0 < orient c a p := by linarith
+      have := mul_pos this (sub_pos.mpr c2); linarith
+  · by_contra hc
+    obtain ⟨c1, c2⟩ := max_lt_iff.mp (not_le.mp hc)
+    have := mul_nonneg h1 (sub_pos.mpr c1).le
+    have := mul_nonneg h2 (sub_pos.mpr c2).le
+    rcases (lt_or_eq_of_le h1) with h | h
+    · have := mul_pos h (sub_pos.mpr c1); nlinarith
+    · have : 0 < orient c a p := by linarith
+      have := mul_pos this (sub_pos.mpr c2); nlinarith
+  · by_contra hc
+    obtain ⟨c1, c2⟩ := lt_min_iff.mp (not_le.mp hc)
+    have := mul_nonneg h1 (sub_pos.mpr c1).le
+    have := mul_nonneg h2 (sub_pos.mpr c2).le
+    rcases (lt_or_eq_of_le h1) with h | h
+    · have := mul_pos h (sub_pos.mpr c1); linarith
+    · have : 0 < orient c a p := by linarith
+      have := mul_pos this (sub_pos.mpr c2); linarith
+  · by_contra hc
+    obtain ⟨c1, c2⟩ := max_lt_iff.mp (not_le.mp hc)
+    have := mul_nonneg h1 (sub_pos.mpr c1).le
+    have := mul_nonneg h2 (sub_pos.mpr c2).le
+    rcases (lt_or_eq_of_le h1) with h | h
+    · have := mul_pos h (sub_pos.mpr c1); nlinarith
+    · have : 0 < orient c a p := by linarith
+      have := mul_pos this (sub_pos.mpr c2); nlinarith
+
+theorem polyLocate_noholes (r : Ring K) (p : Pt K) : polyLocate ⟨r, []⟩ p = ringLocate r p := by
+  simp only [polyLocate, holesLocate]
+  cases ringLocate r p <;> rfl
+
+/-- **counter-clockwise triangle, closed set: `covers` ⇔ the three half-plane tests hold weakly** -/
+theorem tri_covers_iff (a b c p : Pt K) (hdet : 0 < orient a b c) :
+    polyCovers ⟨[a, b, c], []⟩ p = true ↔ 0 ≤ orient a b p ∧ 0 ≤ orient b c p ∧ 0 ≤ orient c a p := by
+  rw [polyCovers_iff, tri_contains_iff a b c p hdet, polyLocate_noholes, ringLocate_boundary_iff]
+  have hedges : ringEdges [a, b, c] = [(a, b), (b, c), (c, a)] := rfl
+  simp only [onRing, hedges, List.any_cons, List.any_nil, Bool.or_false, Bool.or_eq_true]
+  have d1 : 0 < orient b c a := by rw [orient_cycle]; exact hdet
+  have d2 : 0 < orient c a b := by rw [orient_cycle, orient_cycle]; exact hdet
+  constructor
+  · rintro (⟨o1, o2, o3⟩ | h | h | h)
+    · exact ⟨o1.le, o2.le, o3.le⟩
+    · obtain ⟨h1, h2⟩ := onSeg_tri_nonneg a b c p hdet h
+      exact ⟨((onSeg_iff a b p).mp h).1.ge, h1, h2⟩
+    · obtain ⟨h1, h2⟩ := onSeg_tri_nonneg b c a p d1 h
+      exact ⟨h2, ((onSeg_iff b c p).mp h).1.ge, h1⟩
+    · obtain ⟨h1, h2⟩ := onSeg_tri_nonneg c a b p d2 h
+      exact ⟨h1, h2, ((onSeg_iff c a p).mp h).1.ge⟩
+  · rintro ⟨o1, o2, o3⟩
+    rcases lt_or_eq_of_le o1 with p1 | z1
+    · rcases lt_or_eq_of_le o2 with p2 | z2
+      · rcases lt_or_eq_of_le o3 with p3 | z3
+        · exact Or.inl ⟨p1, p2, p3⟩
+        · exact Or.inr (Or.inr (Or.inr (tri_zero_onSeg c a b p d2 z3.symm o1 o2)))
+      · exact Or.inr (Or.inr (Or.inl (tri_zero_onSeg b c a p d1 z2.symm o3 o1)))
+    · exact Or.inr (Or.inl (tri_zero_onSeg a b c p hdet z1.symm o2 o3))
+
+/-- the closed triangle spanned by `o`, `a`, `b` as the textbook set of convex combinations -/
+def InTri (o a b p : Pt K) : Prop :=
+  ∃ s t : K, 0 ≤ s ∧ 0 ≤ t ∧ s + t ≤ 1 ∧
+    p.1 = o.1 + s * (a.1 - o.1) + t * (b.1 - o.1) ∧ p.2 = o.2 + s * (a.2 - o.2) + t * (b.2 - o.2)
+
+theorem inTri_iff_orient (o a b p : Pt K) (hdet : 0 < orient o a b) :
+    InTri o a b p ↔ 0 ≤ orient o a p ∧ 0 ≤ orient a b p ∧ 0 ≤ orient b o p := by
+  constructor
+  · rintro ⟨s, t, hs, ht, hst, ex, ey⟩
+    have e1 : orient o a p = t * orient o a b := by simp only [orient, ex, ey]; ring
+    have e2 : orient a b p = (1 - s - t) * orient o a b := by simp only [orient, ex, ey]; ring
+    have e3 : orient b o p = s * orient o a b := by simp only [orient, ex, ey]; ring
+    rw [e1, e2, e3]
+    exact ⟨mul_nonneg ht hdet.le, mul_nonneg (by linarith) hdet.le, mul_nonneg hs hdet.le⟩
+  · rintro ⟨h1, h2, h3⟩
+    have hS := orient_sum o a b p
+    refine ⟨orient b o p / orient o a b, orient o a p / orient o a b, div_nonneg h3 hdet.le, div_nonneg h1 hdet.le, ?_, ?_, ?_⟩
+    · rw [← add_div, div_le_one hdet]; linarith
+    · field_simp
+      simp only [orient]; ring
+    · field_simp
+      simp only [orient]; ring
+
+theorem inTri_swap (o a b p : Pt K) : InTri o b a p ↔ InTri o a b p := by
+  constructor <;> rintro ⟨s, t, hs, ht, hst, ex, ey⟩ <;>
+    exact ⟨t, s, ht, hs, by linarith, by linarith, by linarith⟩
+
+/-- **non-degenerate triangle, either orientation: the closed set of the crossing-number test is the set of convex
+    combinations of the three corners** -/
+theorem tri_covers_iff_inTri (o a b p : Pt K) (hdet : orient o a b ≠ 0) :
+    polyCovers ⟨[o, a, b], []⟩ p = true ↔ InTri o a b p := by
+  rcases lt_or_gt_of_ne hdet with hneg | hpos
+  · -- clockwise: read the ring backwards
+    have hrev : polyCovers ⟨[o, a, b], []⟩ p = polyCovers ⟨[o, b, a], []⟩ p := by
+      simp only [polyCovers, polyLocate_noholes]
+      rw [← ringLocate_revRing [o, b, a] p]
+      rfl
+    have hpos : 0 < orient o b a := by
+      have : orient o b a = - orient o a b := by simp only [orient]; ring
+      rw [this]; linarith
+    rw [hrev, tri_covers_iff o b a p hpos, ← inTri_swap, inTri_iff_orient o b a p hpos]
+  · rw [tri_covers_iff o a b p hpos, inTri_iff_orient o a b p hpos]
+
+/-- **agreement with the shared geometry model: for a non-degenerate `Triangle(o, c1, c2)` the closed polygon
+    `[o, c1, c2]` contains exactly the points of the denotation `mem (.tri …)`** — which `contains_iff_mem`
+    (Props/C05.lean) proves to be what `Triangle._contains` decides -/
+theorem tri_covers_iff_mem (v : String) (o c1 c2 : PFun K) (pts ρ : Env K) (x y ox oy ax ay bx cy : K)
+    (hp : pts.get v = some [x, y]) (ho : o.f (pts ++ ρ) = [ox, oy]) (h1 : c1.f (pts ++ ρ) = [ax, ay])
+    (h2 : c2.f (pts ++ ρ) = [bx, cy]) (hdet : (ax - ox) * (cy - oy) - (ay - oy) * (bx - ox) ≠ 0) :
+    polyCovers ⟨[(ox, oy), (ax, ay), (bx, cy)], []⟩ (x, y) = true ↔ mem (.tri v o c1 c2) pts ρ := by
+  have hd : orient (ox, oy) (ax, ay) (bx, cy) ≠ 0 := by simpa only [orient] using hdet
+  rw [tri_covers_iff_inTri _ _ _ _ hd]
+  simp only [mem, InTri]
+  constructor
+  · rintro ⟨s, t, hs, ht, hst, ex, ey⟩
+    exact ⟨x, y, ox, oy, ax, ay, bx, cy, s, t, hp, ho, h1, h2, hs, ht, hst, ex, ey⟩
+  · rintro ⟨x', y', ox', oy', ax', ay', bx', cy', s, t, hp', ho', h1', h2', hs, ht, hst, ex, ey⟩
+    rw [hp] at hp'; rw [ho] at ho'; rw [h1] at h1'; rw [h2] at h2'
+    simp only [Option.some.injEq, List.cons.injEq, and_true] at hp' ho' h1' h2'
+    obtain ⟨rfl, rfl⟩ := hp'; obtain ⟨rfl, rfl⟩ := ho'; obtain ⟨rfl, rfl⟩ := h1'; obtain ⟨rfl, rfl⟩ := h2'
+    exact ⟨s, t, hs, ht, hst, ex, ey⟩
+
+/-- **the general convex statement** (a strictly convex counter-clockwise ring of any length): the crossing-number
+    test accepts exactly the points strictly on the inner side of every edge.  Proved for triangles
+    (`convex_contains_iff_partial`); the general case is NOT proved. -/
+def StrictConvexCCW (r : Ring K) : Prop :=
+  r.Nodup ∧ ∀ e ∈ ringEdges r, ∀ q ∈ r, q ≠ e.1 → q ≠ e.2 → 0 < orient e.1 e.2 q
+
+def convex_contains_iff (K : Type) [Field K] [LinearOrder K] [IsStrictOrderedRing K] : Prop :=
+  ∀ (r : Ring K) (p : Pt K), 3 ≤ r.length → StrictConvexCCW r →
+    (polyContains ⟨r, []⟩ p = true ↔ ∀ e ∈ ringEdges r, 0 < orient e.1 e.2 p)
+
+/-- the proved part of `convex_contains_iff`: rings with three vertices -/
+theorem convex_contains_iff_partial (r : Ring K) (p : Pt K) (h3 : r.length = 3) (hc : StrictConvexCCW r) :
+    polyContains ⟨r, []⟩ p = true ↔ ∀ e ∈ ringEdges r, 0 < orient e.1 e.2 p := by
+  match r, h3 with
+  | [a, b, c], _ =>
+    obtain ⟨hnd, hconv⟩ := hc
+    have hedges : ringEdges [a, b, c] = [(a, b), (b, c), (c, a)] := rfl
+    simp only [List.nodup_cons, List.mem_cons, List.not_mem_nil, or_false, not_or, List.nodup_nil, and_true] at hnd
+    have hdet : 0 < orient a b c :=
+      hconv (a, b) (by rw [hedges]; simp) c (by simp) (fun h => hnd.1.2 h.symm) (fun h => hnd.2.1 h.symm)
+    rw [tri_contains_iff a b c p hdet, hedges]
+    simp only [List.mem_cons, List.not_mem_nil, or_false, forall_eq_or_imp, forall_eq]
+
 end TPV.Poly
